@@ -176,6 +176,8 @@ REGISTRY["C12"] = {
         # event nodes inside sub-processes behave (and announce themselves) like their inline counterparts: the C11 campaign, whose catch events sit at process
         # level or inside 1..2 nested sub-processes, is part of this check
         {"name": "TestC11Delivery", "pkg": "props/c11", "label": "catch-events-inside-sub-processes", "checks": {"quick": 100, "thorough": 3000}, "shards": {"quick": 4, "thorough": 8}},
+        # boundary events of activities inside sub-processes (C10's main campaign puts its host into 1..2 nested sub-processes)
+        {"name": "TestC10Boundary", "pkg": "props/c10", "label": "boundary-events-inside-sub-processes", "checks": {"quick": 100, "thorough": 3000}, "shards": {"quick": 4, "thorough": 8}},
         {"name": "TestC12Metamorphic", "label": "TestC12Metamorphic-unrestricted", "env": {"VERIF_UNRESTRICTED": "1"},
          "checks": {"quick": 60, "thorough": 1000}, "shards": {"quick": 4, "thorough": 8}},
     ],
@@ -315,6 +317,9 @@ REGISTRY["C09"] = {
         {"name": "TestC09Engine", "checks": {"quick": 120, "thorough": 4000}, "shards": {"quick": 8, "thorough": 16}, "gomaxprocs": [4, 2, 16, 1]},
         {"name": "TestC09CancelledStart", "checks": {"quick": 60, "thorough": 2000}, "shards": {"quick": 4, "thorough": 16}, "gomaxprocs": [4, 2, 16, 1]},
         {"name": "TestC09CancelledSet", "checks": {"quick": 60, "thorough": 500}, "shards": {"quick": 4, "thorough": 8}, "gomaxprocs": [4, 1, 2, 16]},
+        # trace order of boundary-event flows (hosts entered again, two tokens in one host): every driven run checks that a flow id is announced once
+        {"name": "TestC10Boundary", "pkg": "props/c10", "label": "boundary-event-flows", "env": {"VERIF_UNRESTRICTED": "1"}, "checks": {"quick": 100, "thorough": 3000}, "shards": {"quick": 4, "thorough": 8}},
+        {"name": "TestC10Boundary", "pkg": "props/c10", "label": "boundary-event-flows-main", "checks": {"quick": 60, "thorough": 2000}, "shards": {"quick": 4, "thorough": 8}},
     ],
 }
 
